@@ -72,6 +72,7 @@ fn same_value(model: &MVal, got: &Value<'_>) -> bool {
         (MVal::UInt(a), Value::UInt(b)) => a == b,
         (MVal::Float(a), Value::Float(b)) => a.0.to_bits() == b.to_bits() || (a.0.is_nan() && b.is_nan()) || ((a.0 as f32) as f64 == *b),
         (MVal::Str(a), Value::String(b)) => a == b,
+        (MVal::Obj(a), Value::Object(b)) => a.iter().all(|(k, m)| b.get(k).map(|g| same_value(m, &g)).unwrap_or(false)) && b.len() == a.len(),
         (MVal::Arr(a), Value::Array(b)) => {
             let items: Vec<Value<'_>> = b.iter().collect();
             // order may differ for set-backed arrays: compare as multisets
@@ -165,6 +166,46 @@ fn typed_verdicts(rule: &Rule, doc: &MVal, allow_sets: bool) -> Vec<(String, Res
         MVal::Arr(a) => a.iter().map(|x| as_u(x)).collect(),
         _ => None,
     });
+    let str_obj = |v: &MVal| -> Option<HashMap<String, String>> {
+        match v {
+            MVal::Obj(o) => o
+                .iter()
+                .map(|(k, x)| match x {
+                    MVal::Str(s) => Some((k.clone(), s.clone())),
+                    _ => None,
+                })
+                .collect(),
+            _ => None,
+        }
+    };
+    typed!("HashMap<String,HashMap<String,String>>", HashMap<String, String>, |v: &MVal| str_obj(v));
+    typed!("HashMap<String,Vec<HashMap<String,String>>>", Vec<HashMap<String, String>>, |v: &MVal| match v {
+        MVal::Arr(a) => a.iter().map(|x| str_obj(x)).collect(),
+        _ => None,
+    });
+    typed!("HashMap<String,Option<Vec<String>>>", Option<Vec<String>>, |v: &MVal| match v {
+        MVal::Null => Some(None),
+        MVal::Arr(a) => a
+            .iter()
+            .map(|x| match x {
+                MVal::Str(s) => Some(s.clone()),
+                _ => None,
+            })
+            .collect::<Option<Vec<String>>>()
+            .map(Some),
+        _ => None,
+    });
+    typed!("HashMap<String,Vec<Option<i64>>>", Vec<Option<i64>>, |v: &MVal| match v {
+        MVal::Arr(a) => a
+            .iter()
+            .map(|x| match x {
+                MVal::Int(i) => Some(Some(*i)),
+                MVal::Null => Some(None),
+                _ => None,
+            })
+            .collect(),
+        _ => None,
+    });
     if allow_sets {
         typed!("HashMap<String,HashSet<String>>", HashSet<String>, |v: &MVal| match v {
             MVal::Arr(a) if a.len() <= 4 => {
@@ -194,10 +235,16 @@ pub fn generate(kind: &str, seed: u64, run: u64, thorough: bool) -> Scenario {
     let mut kr = Rng::stream(seed, run, "KNOBS");
     let mut knobs = gen::Knobs::draw(&mut kr);
     knobs.feat |= gen::F_EXTREMES | gen::F_DOC_ARRAYS;
-    if kind == "typed" {
+    let nested_typed = kind == "typed" && run % 3 == 2;
+    if kind == "typed" && !nested_typed {
         // flat documents of one value kind so that typed containers can express them
         knobs.feat &= !(gen::F_NESTED | gen::F_DOTTED | gen::F_DOC_OBJ_ARRAYS | gen::F_INDEXED);
         knobs.max_depth = 0;
+    }
+    if nested_typed {
+        knobs.feat |= gen::F_NESTED | gen::F_DOTTED;
+        knobs.feat &= !gen::F_INDEXED;
+        knobs.max_depth = 1;
     }
     let mut rr = Rng::stream(seed, run, "RULE");
     let mut dr = Rng::stream(seed, run, "DOCS");
@@ -218,10 +265,31 @@ pub fn generate(kind: &str, seed: u64, run: u64, thorough: bool) -> Scenario {
         let schema = gen::derive_schema(&yaml);
         docs.clear();
         for _ in 0..10 {
-            let class = dr.below(8);
+            let class = if nested_typed { 8 + dr.below(2) } else { dr.below(8) };
             let mut fields = vec![];
             for (k, node) in &schema.children {
                 if dr.chance(1, 5) {
+                    continue;
+                }
+                if class >= 8 {
+                    // one level of objects (or arrays of objects) whose members are strings
+                    let obj = |dr: &mut Rng| -> MVal {
+                        let mut inner = vec![];
+                        for (ck, cn) in &node.children {
+                            if dr.chance(1, 4) {
+                                continue;
+                            }
+                            let strs: Vec<&MVal> = cn.values.iter().filter(|v| matches!(v, MVal::Str(_))).collect();
+                            let v = if !strs.is_empty() && dr.chance(3, 4) { (*dr.pick(&strs)).clone() } else { MVal::Str((*dr.pick(&["foo", "bar", "", "x"])).to_owned()) };
+                            inner.push((ck.clone(), v));
+                        }
+                        if inner.is_empty() {
+                            inner.push(("zz".to_owned(), MVal::Str("x".into())));
+                        }
+                        MVal::Obj(inner)
+                    };
+                    let v = if class == 8 { obj(&mut dr) } else { MVal::Arr((0..dr.below(3)).map(|_| obj(&mut dr)).collect()) };
+                    fields.push((k.clone(), v));
                     continue;
                 }
                 let pool: Vec<&MVal> = node
@@ -313,6 +381,7 @@ pub fn generate(kind: &str, seed: u64, run: u64, thorough: bool) -> Scenario {
             "sim_signed".into(),
             "sim_permuted".into(),
             "yaml".into(),
+            "yaml_tagged".into(),
             "json".into(),
             "hashmap".into(),
             "typed".into(),
@@ -434,6 +503,23 @@ pub fn execute(sc: &Scenario) -> Outcome {
                             note("serde_yaml::Mapping", matches_doc(&r, m), &mut stats);
                         }
                     }
+                    "yaml_tagged" => {
+                        // the same mapping with its scalar members carrying a YAML tag
+                        if let Some(m) = doc.to_yaml().as_mapping() {
+                            let mut t = serde_yaml::Mapping::new();
+                            for (k, v) in m {
+                                let tagged = match v {
+                                    serde_yaml::Value::Mapping(_) | serde_yaml::Value::Sequence(_) => v.clone(),
+                                    other => serde_yaml::Value::Tagged(Box::new(serde_yaml::value::TaggedValue {
+                                        tag: serde_yaml::value::Tag::new("t"),
+                                        value: other.clone(),
+                                    })),
+                                };
+                                t.insert(k.clone(), tagged);
+                            }
+                            note("serde_yaml::Mapping(tagged scalars)", matches_doc(&r, &t), &mut stats);
+                        }
+                    }
                     "json" => match doc.to_json() {
                         Some(j) if j.is_object() => note("serde_json::Value", matches_doc(&r, &j), &mut stats),
                         _ => stats.inc("json_cannot_express_document"),
@@ -488,6 +574,8 @@ pub fn execute(sc: &Scenario) -> Outcome {
                             "int_vs_uint"
                         } else if l.starts_with("sim(owned") {
                             "cow"
+                        } else if l.starts_with("serde_yaml::Mapping(tagged") {
+                            "yaml_tagged"
                         } else if l.starts_with("serde_yaml") {
                             "yaml"
                         } else if l.starts_with("serde_json") {
